@@ -27,6 +27,10 @@ std::vector<ConfigEntry>& scale_table() {
     static std::vector<ConfigEntry> t;
     return t;
 }
+std::vector<ConfigEntry>& alias_table() {
+    static std::vector<ConfigEntry> t;
+    return t;
+}
 
 // ----- runaway-operation bound (see CmpBudget in C01_btree_common.hpp) -----------------------------
 namespace {
@@ -103,6 +107,7 @@ class History {
     const CfgInfo& ci;
     const bool WM, INV;
     const bool SC; // scale mode (target btree_scale): huge node capacities, nodes filled first, cost-bounded history
+    const bool AL; // alias mode (targets btree_alias / btree_alias_invariants): destructive-move element types + aliasing operations
     const char* const prefix;
     Slot s0, s1;
     int U = 8;
@@ -196,7 +201,7 @@ class History {
     size_t dups(int c, int k) { return WM ? S(c).m->count(k) : 0; }
     //! labels of secondary interest are left out of the (already long) histogram of the scale target
     void minor(const char* l) {
-        if (!SC) pbt::label(l);
+        if (!SC && !AL) pbt::label(l);
     }
 #define BT_CHECK(cond, sub, msgexpr) PBT_CHECK(cond, std::string(prefix) + "/" sub, hdr() << msgexpr)
 
@@ -210,6 +215,16 @@ class History {
         size_t bound = (WM ? sl.m->size() : sl.t->size()) + 4;
         bool ok = sl.t->collect(0, false, bound, sl.obs);
         BT_CHECK(ok, "iterate-forward", "slot " << c << ": begin()..end() yields more than " << bound << " elements (size() = " << sl.t->size() << ")");
+        // a moved-from value (empty std::string / the Tracked poison) may be observed in the source of a move only,
+        // never among the elements a container holds (C02: the order / separator invariants judge such a key)
+        if (WM) {
+            for (size_t i = 0; i < sl.obs.size(); ++i) {
+                const KD& e = sl.obs[i];
+                BT_CHECK(e.first != kPoison && e.second != kPoison, "moved-from-element",
+                         "slot " << c << ": the element at rank " << i << " of " << sl.obs.size() << " holds a MOVED-FROM "
+                                 << (e.first == kPoison ? "key" : "datum") << " (element type " << ci.elem << ")");
+            }
+        }
     }
 
     void compare_model(int c, bool full) {
@@ -573,9 +588,10 @@ class History {
     }
 
     //! erase_one(k) as one compared step
-    void do_erase_one(int c, int k) {
+    //! (alias_rank >= 0: the argument is a reference to the key of the container's own element at that rank)
+    void do_erase_one(int c, int k, long alias_rank = -1) {
         Slot& sl = S(c);
-        opname = "erase_one(k)";
+        opname = alias_rank >= 0 ? "erase_one(key of *it) [aliased]" : "erase_one(k)";
         PBT_LOG("#" << nsteps << " " << opname << " slot " << c << " k=" << k << "\n");
         recent_key = k;
         int hb = sl.shape.height;
@@ -587,7 +603,7 @@ class History {
             sl.t->locate(3, 0, before, k, lp, false);
             if (!lp.is_end) target = lp.leaf;
         }
-        bool r = sl.t->erase_one(k);
+        bool r = alias_rank >= 0 ? sl.t->erase_one_alias((size_t)alias_rank, before) : sl.t->erase_one(k);
         if (WM) {
             IModel& m = *sl.m;
             size_t cnt = m.count(k);
@@ -1039,6 +1055,183 @@ class History {
         if (sl.shape.height >= 3) pbt::label("bulk_height>=3");
     }
 
+    // ----- ALIASING operations (alias mode only) ---------------------------------------------------------------------
+    //! rank of an element of slot c (non-empty) whose reference is handed to the container: by position in the
+    //! structure (last / first / middle / upper half of a leaf: the slots a split or a shift moves), then optionally
+    //! moved inside its run of equivalent keys (first / last / second entry of the run)
+    size_t draw_alias_rank(int c) {
+        const std::vector<KD>& o = S(c).obs;
+        unsigned b = src.u8();
+        size_t r = (b & 3) != 3 ? rank_by_position(c) : src.index(o.size());
+        size_t lo = r, hi = r + 1;
+        while (lo > 0 && equiv(c, o[lo - 1].first, o[r].first)) --lo;
+        while (hi < o.size() && equiv(c, o[hi].first, o[r].first)) ++hi;
+        switch ((b >> 2) & 3) {
+        case 1: r = hi - 1; break;
+        case 2: r = lo + (hi - lo >= 2 ? 1 : 0); break;
+        case 3: r = lo; break;
+        default: break;
+        }
+        if (hi - lo >= 2) pbt::label(r == lo ? "alias:arg_first_of_dup_run" : "alias:arg_inside_dup_run");
+        return r;
+    }
+    size_t first_of_run(int c, size_t r) {
+        const std::vector<KD>& o = S(c).obs;
+        while (r > 0 && equiv(c, o[r - 1].first, o[r].first)) --r;
+        return r;
+    }
+
+    //! c.insert(*it) / c.insert(hint, *it) / c.insert2(it_a->first, it_b->second) / c.insert2(hint, ...): the std
+    //! containers accept a reference to their own element and insert a copy of it
+    void op_insert_alias(int c) {
+        Slot& sl = S(c);
+        if (sl.obs.empty()) return op_insert(c, false);
+        if (sl.obs.size() >= MAXSIZE) return op_erase_sweep(c);
+        const size_t n = sl.obs.size();
+        size_t ra = draw_alias_rank(c);
+        // known-findings switch (only if listed as excluded): an argument that is not the first entry of its run
+        if (ci.multi() && pbt::excluded("C01/aliased-insert")) ra = first_of_run(c, ra);
+        unsigned vb = src.u8();
+        const unsigned two = ci.is_map() ? (vb & 1) : 0;
+        const bool with_hint = (vb & 2) != 0;
+        size_t rb = ra;
+        if (two && (vb & 4)) rb = src.index(n); // data reference from another element of the same container
+        size_t hint_rank = 0;
+        if (with_hint) hint_rank = (vb & 8) ? ra : src.index(n + 1); // also c.insert(it, *it)
+        const int k = sl.obs[ra].first, d = two ? sl.obs[rb].second : sl.obs[ra].second;
+        opname = with_hint ? (two ? "insert2(hint, it_a->first, it_b->second) [aliased]" : "insert(hint, *it) [aliased]")
+                           : (two ? "insert2(it_a->first, it_b->second) [aliased]" : "insert(*it) [aliased]");
+        pbt::label(two ? "op:insert2_alias" : "op:insert_alias");
+        if (with_hint) pbt::label("op:insert_alias_hint");
+        if (rb != ra) pbt::label("alias:insert2_data_of_other_element");
+        PBT_LOG("#" << nsteps << " " << opname << " slot " << c << " it_a@" << ra << " it_b@" << rb << " -> " << k << ":" << d);
+        if (with_hint) PBT_LOG(" hint@" << hint_rank);
+        PBT_LOG("\n");
+        recent_key = k;
+        // classes: will the leaf of the referenced element split, and is the element in its upper half?
+        {
+            const std::vector<int>& lf = sl.shape.leaf_fill;
+            size_t off = 0;
+            for (size_t i = 0; i < lf.size(); ++i) {
+                if (ra < off + (size_t)lf[i]) {
+                    if (lf[i] == ci.leaf && ci.multi()) {
+                        pbt::label("alias:arg_in_full_leaf");
+                        if (ra - off >= (size_t)lf[i] / 2) pbt::label("alias:arg_in_upper_half_of_full_leaf");
+                    }
+                    break;
+                }
+                off += (size_t)lf[i];
+            }
+        }
+        int hb = sl.shape.height;
+        size_t lbr = 0, ubr = 0;
+        if (WM) lbr = sl.m->lower_rank(k), ubr = sl.m->upper_rank(k);
+        Pos p;
+        bool ok = true, have_ok = false;
+        arm_key(2, k);
+        sl.t->insert_alias(ra, rb, two | (with_hint ? 2u : 0u), hint_rank, n, p, ok, have_ok, WM);
+        if (WM) {
+            size_t er = 0;
+            bool mok = true;
+            KD mat;
+            sl.m->insert(k, d, er, mok, mat);
+            need_reachable(p, opname, n + 1);
+            BT_CHECK(!p.is_end, "insert-result", "returned end()");
+            if (ci.multi()) {
+                BT_CHECK(p.rank >= lbr && p.rank <= ubr, "insert-result",
+                         "returned iterator at rank " << p.rank << " is outside the run of equivalent keys [" << lbr << "," << ubr << "]");
+                BT_CHECK(p.value == KD(k, d), "insert-result",
+                         "returned iterator points to " << show(p.value) << ", the referenced element(s) of the container held " << k << ":" << d);
+            }
+            else {
+                if (have_ok) BT_CHECK(ok == mok, "insert-result", "returned bool " << ok << ", std container returned " << mok);
+                BT_CHECK(p.rank == er && p.value == mat, "insert-result",
+                         "returned iterator at rank " << p.rank << " -> " << show(p.value) << ", std container's at rank " << er << " -> " << show(mat));
+            }
+        }
+        if (ci.multi()) note_mutation(c, false, hb);
+        finish(1 << c, OC_INSERT);
+    }
+
+    //! c.erase(*it) / c.erase(it->first) / c.erase_one(...): the key is a reference to an element that is erased by the call
+    void op_erase_alias(int c) {
+        Slot& sl = S(c);
+        if (sl.obs.empty()) return op_erase_key(c);
+        const size_t n = sl.obs.size();
+        size_t ra = draw_alias_rank(c);
+        const int k = sl.obs[ra].first;
+        bool one = src.index(3) == 0;
+        // known-findings switch (only if listed as excluded): erase(key) of a duplicate-key container with an aliased key
+        if (!one && ci.multi() && pbt::excluded("C01/aliased-erase")) one = true;
+        if (one) {
+            pbt::label("op:erase_one_alias");
+            do_erase_one(c, k, (long)ra);
+            return;
+        }
+        opname = "erase(key of *it) [aliased]";
+        pbt::label("op:erase_key_alias");
+        PBT_LOG("#" << nsteps << " " << opname << " slot " << c << " it@" << ra << " k=" << k << "\n");
+        recent_key = k;
+        int hb = sl.shape.height;
+        arm_key(2 + dups(c, k) + (WM ? 0 : n), k);
+        size_t cnt = sl.t->erase_key_alias(ra, n);
+        if (WM) {
+            size_t e = sl.m->erase_key(k);
+            BT_CHECK(cnt == e, "erase-result", "erase(key of the element at rank " << ra << " = " << k << ") returned " << cnt << ", std container erased " << e);
+        }
+        if (cnt > 1) pbt::label("alias:erase_key_removes_run");
+        if (cnt) note_mutation(c, true, hb);
+        finish(1 << c, OC_ERASE);
+    }
+
+    //! exists / count / find / lower_bound / upper_bound / equal_range with a key reference into the container
+    void op_query_alias(int c) {
+        Slot& sl = S(c);
+        if (sl.obs.empty()) return op_lookup(c);
+        const size_t n = sl.obs.size();
+        size_t ra = draw_alias_rank(c);
+        const int k = sl.obs[ra].first;
+        unsigned q = (unsigned)src.index(6);
+        bool constant = src.boolean();
+        static const char* names[6] = {"exists(key of *it) [aliased]", "count(key of *it) [aliased]", "find(key of *it) [aliased]", "lower_bound(key of *it) [aliased]",
+                                       "upper_bound(key of *it) [aliased]", "equal_range(key of *it) [aliased]"};
+        opname = names[q];
+        pbt::label("op:query_alias");
+        PBT_LOG("#" << nsteps << " " << opname << " slot " << c << " it@" << ra << " k=" << k << "\n");
+        size_t cnt = 0, lbr = 0, ubr = 0;
+        if (WM) cnt = sl.m->count(k), lbr = sl.m->lower_rank(k), ubr = sl.m->upper_rank(k);
+        arm_key(3 + cnt + (WM ? 0 : n), k);
+        size_t got = 0;
+        Pos a, b;
+        sl.t->query_alias(ra, n, q, constant, got, a, b, WM);
+        if (WM) {
+            if (q == 0) BT_CHECK(got == 1, "lookup", "exists(key of an element of the container) is false");
+            else if (q == 1) BT_CHECK(got == cnt, "lookup", "count(" << k << ") = " << got << ", std count = " << cnt);
+            else if (q == 2) {
+                need_reachable(a, opname, n);
+                BT_CHECK(!a.is_end && a.rank >= lbr && a.rank < ubr && a.value == sl.obs[a.rank], "lookup",
+                         "find(" << k << ") " << (a.is_end ? "== end()" : "at rank ") << a.rank << ", the run is [" << lbr << "," << ubr << ")");
+            }
+            else if (q == 3) check_pos(c, a, lbr, "lower");
+            else if (q == 4) check_pos(c, a, ubr, "upper");
+            else {
+                check_pos(c, a, lbr, "first");
+                check_pos(c, b, ubr, "second");
+            }
+        }
+        finish(1 << c, OC_OTHER, nullptr, false);
+    }
+
+    //! c.swap(c): must leave the container as it is
+    void op_swap_self(int c) {
+        opname = "swap (self)";
+        pbt::label("op:swap_self");
+        PBT_LOG("#" << nsteps << " slot" << c << ".swap(slot" << c << ") (size " << S(c).obs.size() << ")\n");
+        arm_bulk();
+        S(c).t->swap_self();
+        finish(1 << c, OC_OTHER);
+    }
+
     void op_relops() {
         int i = (int)src.index(2), j = (int)src.index(2);
         opname = "relational operators";
@@ -1113,8 +1306,8 @@ class History {
     }
 
 public:
-    History(pbt::Source& s, const ConfigEntry& e, bool model, bool scale = false)
-        : src(s), cfg(e), ci(e.info), WM(model), INV(!model), SC(scale), prefix(model ? "C01" : "C02") {
+    History(pbt::Source& s, const ConfigEntry& e, bool model, bool scale = false, bool alias = false)
+        : src(s), cfg(e), ci(e.info), WM(model), INV(!model), SC(scale), AL(alias), prefix(model ? "C01" : "C02") {
         g_runaway.prefix = prefix;
         g_runaway.describe = &History::describe_for_runaway;
         g_runaway.self = this;
@@ -1236,12 +1429,62 @@ public:
         case 13: op_swap(); break;
         case 14: op_construct(c); break;
         case 15: op_clear(c); break;
+        case 16: op_relops(); break;
+        case 17: op_insert_alias(c); break;
+        case 18: op_erase_alias(c); break;
+        case 19: op_query_alias(c); break;
+        case 20: op_swap_self(c); break;
         default: op_relops(); break;
         }
     }
 
+    // ----- alias mode: the ordinary history (all operations of the main target, now on element types with a destructive
+    // move) interleaved with the aliasing operations ---------------------------------------------------------------
+    void run_alias() {
+        static const int UT[16] = {8, 3, 24, 64, 1, 12, 2, 32, 6, 96, 4, 16, 48, 128, 256, 5};
+        U = UT[src.index(16)];
+        unsigned cs = (unsigned)src.index(6);
+        shift = ci.stateful() ? cs % 3 : 0;
+        desc = ci.stateful() ? (cs / 3) != 0 : false;
+        profile = (unsigned)src.index(4);
+        endmode = (unsigned)src.index(3);
+        if (U <= 4) pbt::label("universe<=4");
+        if (U >= 128) pbt::label("universe>=128");
+        if (shift) pbt::label("coarse_equivalence");
+        if (ci.stateful() && desc) pbt::label("descending_state");
+        PBT_LOG("alias config " << ci.name << " U=" << U << " shift=" << shift << " desc=" << desc << " profile=" << profile << "\n");
+        for (int c = 0; c < 2; ++c) {
+            S(c).t.reset(cfg.create(shift, desc));
+            if (WM) S(c).m.reset(model_factory()(ci.kind, ci.cmp, shift, desc));
+        }
+        opname = "construct";
+        finish(3, OC_OTHER);
+        // weights: insert, erase_one, erase_iter, insert_range, erase_sweep, erase_key, insert_hint, lookup, bounds, walk,
+        //          bulk_load, copy, assign, swap, construct, clear, relops | insert_alias, erase_alias, query_alias, swap_self
+        static const unsigned W[4][21] = {
+            {30, 12, 12, 10, 8, 5, 6, 6, 6, 4, 5, 4, 5, 4, 3, 2, 3, 40, 16, 8, 3},      // balanced, a third aliasing
+            {30, 4, 4, 16, 3, 2, 6, 4, 4, 2, 4, 3, 3, 3, 1, 1, 2, 70, 6, 6, 2},         // growing mostly through its own elements
+            {16, 20, 24, 10, 20, 8, 3, 6, 8, 4, 5, 3, 3, 3, 2, 2, 3, 24, 40, 8, 2},      // draining mostly through its own keys
+            {14, 8, 8, 10, 6, 3, 3, 6, 6, 4, 12, 18, 20, 16, 10, 6, 12, 20, 8, 6, 16},  // whole-container operations, self-assign / self-swap
+        };
+        const unsigned* w = W[profile];
+        while (nops < MAXOPS && nsteps < MAXSTEPS) {
+            if (src.exhausted()) break;
+            unsigned mb = src.u8();
+            if (mb == 0) break;
+            int c = (mb & 0xC0) == 0xC0 ? 1 : 0;
+            size_t op = src.weighted({w[0], w[1], w[2], w[3], w[4], w[5], w[6], w[7], w[8], w[9], w[10], w[11], w[12], w[13], w[14], w[15], w[16], w[17], w[18],
+                                      w[19], w[20]});
+            sep_changed_prev = sep_changed;
+            ++nops;
+            dispatch(op, c);
+        }
+        end_of_history();
+    }
+
     void run() {
         if (SC) return run_scale();
+        if (AL) return run_alias();
         // header: universe, comparator state, operation profile, way to die (the configuration id was drawn by the caller)
         // (ordered so that the small byte values favoured by the driver already give very different universes)
         static const int UT[16] = {8, 64, 3, 24, 1, 256, 12, 96, 2, 32, 6, 128, 4, 16, 48, 512};
@@ -1320,6 +1563,39 @@ void run_property(pbt::Source& src, bool model) {
     if (e.info.tracked) pbt::label("elem:Tracked");
     if (e.info.raw) pbt::label("api:BTree_base_class");
     History h(src, e, model);
+    h.run();
+}
+
+void run_alias_property(pbt::Source& src, bool model) {
+    std::vector<ConfigEntry>& t = alias_table();
+    static bool sorted = false;
+    if (!sorted) {
+        std::sort(t.begin(), t.end(), [](const ConfigEntry& a, const ConfigEntry& b) { return a.info.id < b.info.id; });
+        sorted = true;
+    }
+    if (t.empty()) {
+        pbt::inconclusive();
+        return;
+    }
+    Ledger::get().reset();
+    AllocLedger::get().reset();
+    tlx::set_die_with_exception(true);
+    unsigned b = src.u8();
+    const ConfigEntry& e = t[((b * 37u) & 255u) % t.size()];
+    static const char* kl[4] = {"kind:set", "kind:multiset", "kind:map", "kind:multimap"};
+    static const char* cl[3] = {"cmp:less", "cmp:greater", "cmp:stateful"};
+    pbt::label(kl[e.info.kind]);
+    pbt::label(cl[e.info.cmp]);
+    pbt::label(e.info.binary ? "search:binary" : "search:linear");
+    pbt::label(cap_class(e.info.leaf, e.info.inner));
+    {
+        static std::map<std::string, std::string> names; // label strings must outlive the case
+        std::string& l = names[e.info.elem];
+        if (l.empty()) l = std::string("elem:") + e.info.elem;
+        pbt::label(l.c_str());
+    }
+    if (e.info.raw) pbt::label("api:BTree_base_class");
+    History h(src, e, model, false, true);
     h.run();
 }
 
